@@ -76,8 +76,8 @@ CHECKS = {
   "note": "the model encodes the documented coercion; ints beyond 10^300 and strings with blanks are outside the generator; name collisions a-b / a_b are not judged",
  },
  "C20": {
-  "technique": "history monitor over switch assignments interleaved with guarded calls; wrappers on the three checks._check_* functions observe invocations directly; last-valid-value model of the switch; python -O sub-run",
-  "text": "For random histories the switch must follow the model (invalid values raise ValueError and change nothing); while on, every constructed-invalid input (defect >= 1e-3, reflection, Euler angle outside by >= 1e-3, left-handed UBI, det<0) must raise ValueError from a check and every valid input (exact, float32-rounded, perturbed < 1e-7, end-point angles) must be accepted; while off no _check_* function may be invoked and valid inputs must return bit-identical results. Reported the float32 rejection of the pinned tree (repaired by a fix: commit).",
+  "technique": "history monitor over switch assignments interleaved with guarded calls; wrappers on the three checks._check_* functions attribute a rejection to a check (how the checking is organised is observed, not judged); last-valid-value model of the switch; python -O sub-run",
+  "text": "For random histories the switch must follow the model (invalid values raise ValueError and change nothing); while on, every constructed-invalid input (orientation matrix with defect >= 1e-3 or reflected - for Umis also both operands invalid with a proper product -, Euler angle outside by >= 1e-3, left-handed UBI) must raise ValueError and every valid input (exact, float32-rounded, perturbed < 1e-7, end-point angles, list/tuple/float32 containers) must be accepted; while off no input check may reject, an invalid input must not raise ValueError, and valid inputs must return the same results as with the checks on. A left-handed U.B handed to ub_to_u_b is observed, not judged (the statement names no invalid class for that function). Reported the float32 rejection of the pinned tree (repaired by a fix: commit).",
   "design_ref": "DESIGN.md section 3 C20, section 4 row 14",
   "note": "inputs between 1e-7 and 1e-3 are deliberately not generated (don't-care band of the property)",
  },
